@@ -1313,7 +1313,8 @@ func doExtIDs(n int) {
 				"9223372036854775807", "9223372036854775808", "-9223372036854775808", "-9223372036854775809", "9223372036792640000", "99999999999999999999", "1e9", "\xef\xbc\x91"}[rng.Intn(20)]
 			e = signEntry(content, ss, salt, ts)
 			label = "salt-syntax"
-		case 7: // wrong chain id (signature made for another chain)
+		case 7: // wrong chain id (signature made for another chain); the untouched entry is validated first, in the same process
+			emit(e.clone(), h, "valid")
 			e.chain[rng.Intn(32)] ^= 1 << uint(rng.Intn(8))
 			label = "wrong-chain"
 		case 8: // swapped rcd / sig
@@ -1399,7 +1400,8 @@ func doExtIDs(n int) {
 			j := 1 + 2*rng.Intn(len(ss))
 			e.extids[j][0] = []byte{0, 2, 0x0e, 1, 0xff}[rng.Intn(5)]
 			label = "rcd-type-byte"
-		case 17: // content changed after signing
+		case 17: // content changed after signing (the untouched entry is validated first: a verdict must not be remembered per ExtIDs)
+			emit(e.clone(), h, "valid")
 			c := append([]byte(nil), e.content...)
 			p := bytes.Index(c, []byte(`"amount":`))
 			if p >= 0 {
@@ -1408,6 +1410,7 @@ func doExtIDs(n int) {
 			e.content = c
 			label = "content-changed"
 		case 18: // timestamp far away
+			emit(e.clone(), h, "valid")
 			e.ts += []int64{86400, -86400, 43201 + 1000, 1 << 40}[rng.Intn(4)]
 			label = "timestamp-moved"
 		case 19: // random bit flip somewhere in the ExtIDs
@@ -1417,6 +1420,7 @@ func doExtIDs(n int) {
 			}
 			label = "extid-bit-flip"
 		case 20: // random bit flip in the content
+			emit(e.clone(), h, "valid")
 			c := append([]byte(nil), e.content...)
 			c[rng.Intn(len(c))] ^= 1 << uint(rng.Intn(8))
 			e.content = c
